@@ -594,3 +594,48 @@ def cycle_types(d):
             for g in eff[p]['provides']:
                 out |= set(g)
     return out
+
+
+# --------------------------------------------------------------------------------------------------------------------
+# several declarations in one package / file (one generator invocation, one shared name pool)
+
+def suffix_decl(d, sfx):
+    """Rename every type and provider of d with a suffix so that several declarations can share a package."""
+    d = copy.deepcopy(d)
+
+    def rt(t):
+        return t if t == 'ctx' else t + sfx
+
+    def rp(p):
+        return p + sfx
+    d['types'] = {rt(k): dict(v, fields=[[f, rt(t)] for f, t in v['fields']]) if 'fields' in v else dict(v) for k, v in d['types'].items()}
+    for p in d['providers']:
+        p['id'] = rp(p['id'])
+        p['requires'] = [rt(t) for t in p.get('requires', [])]
+        p['provides'] = [[rt(t) for t in g] for g in p.get('provides', [])]
+        if p.get('struct'):
+            p['struct'] = rt(p['struct'])
+    d['ret'] = rt(d['ret'])
+
+    def rl(layout):
+        out = []
+        for x in layout:
+            if isinstance(x, dict):
+                out.append({'set': x['set'] + sfx, 'inline': x.get('inline', False), 'members': rl(x['members'])})
+            else:
+                out.append(rp(x))
+        return out
+    d['layout'] = rl(d['layout'])
+    return d
+
+
+def make_group(gid, decls):
+    """decls -> list of renamed declarations sharing package gid (file k.go)"""
+    out = []
+    for k, d in enumerate(decls):
+        v = suffix_decl(d, 'abcdefgh'[k])
+        v['id'] = '%s_%d' % (gid, k)
+        v['injector'] = 'Init_%s_%d' % (gid, k)
+        v['group'] = gid
+        out.append(v)
+    return out
